@@ -47,6 +47,8 @@ oracle (the real code alone)
   builder_api     : circuits built through `CircuitBuilder` / `build` S-expressions (core objects handed in,
                     python ints / floats of any finite magnitude as arguments and let values, counts given as
                     int / None / name, legal nesting) round-trip in the same sense
+  literal_zero_step_survives : programs with `map a r[x:y:0]` where a bound is a let (accepted: the zero-step check
+                    is skipped) round-trip — FAILS on the current tree, `notate_slice` drops the step (reported)
   builder_api_integral_floats : the same when a register size or a `map` index is an integral python float
                     (accepted by the constructors)
 """
@@ -309,6 +311,12 @@ class ProgGen:
                 stop = rng.randint(max(-1, last + step), last - 1)
                 idx = list(range(start, stop, step))
             form = ("slice", self.bound(start, start == 0), self.bound(stop, stop == S), self.bound(step, step == 1))
+            lets_in = [f for f in form[1:] if f is not None and f[0] == "id"]
+            if lets_in and form[3] is not None and form[3][0] == "int" and rng.random() < 0.15:
+                # a LITERAL zero step: `Register.__init__` checks it only when no bound is a let
+                form = form[:3] + (("int", "0", 0),)
+                idx = []
+                self.feat["map_slice_literal_zero_step"] += 1
             self.maps.append((name, src, form))
             self.rsize[name] = [qs[i] for i in idx]
             self.feat["map_slice"] += 1
@@ -1218,7 +1226,8 @@ def call_driver(driver, reqs):
 
 ORACLES = ["reparse_equal", "text_fixpoint", "same_meaning", "nothing_lost", "after_passes",
            "after_passes_with_shadowing_parameters", "builder_api",
-           "builder_api_integral_floats", "no_same_kind_nesting_from_parser", "generate_never_raises_on_parsed"]
+           "builder_api_integral_floats", "no_same_kind_nesting_from_parser", "generate_never_raises_on_parsed",
+           "literal_zero_step_survives"]
 
 
 class Acc:
@@ -1272,6 +1281,13 @@ def make_program(seed, idx):
 
 def trip_oracles(acc, c, gs, case, prog=None):
     """the direct oracles on one accepted circuit; returns the impl answer for `round_trip`"""
+    if prog is not None and prog.feat.get("map_slice_literal_zero_step"):
+        # known violation (reported): `notate_slice` does not write a step of 0; kept apart so that the main oracles
+        # stay informative
+        ans, t, c2 = impl_round_trip(c, gs)
+        ok = c2 is not None and bool(c == c2) and ans.get("stable", False)
+        acc.check("literal_zero_step_survives", ok, case, f"generated: {t!r}")
+        return ans
     ans, t, c2 = impl_round_trip(c, gs)
     acc.check("generate_never_raises_on_parsed", t is not None, case, f"{ans}")
     if t is None:
@@ -1359,14 +1375,20 @@ def process_program(acc, seed, idx, thorough):
         ask("parse_program", {"text": text, "natives": natives}, case, {"ok": dumpc(c)})
         ans = trip_oracles(acc, c, gs, case, prog=p)
         ask("round_trip", {"text": text, "natives": natives}, case, ans)
+        if "equal" in ans and not p.feat.get("map_slice_literal_zero_step"):
+            # the layers evaluated in the model agree with what the real code does: A and B always, C iff `==` and stable
+            pass
         if "equal" in ans and ans["equal"] and ans["stable"]:
             # the layer statements of the Lean development (tokens derive / lexing the generated text / rebuilding the
             # S-expression), evaluated inside the model: all hold whenever the real code round-trips
             ask("round_trip_layers", {"text": text, "natives": natives}, case, {"printable": True, "A": True, "B": True, "C": True})
         names = PASSES if thorough or idx % 2 == 0 else rng.sample(PASSES, 3)
+        if p.feat.get("map_slice_literal_zero_step") and "equal" in ans and not ans["equal"]:
+            ask("round_trip_layers", {"text": text, "natives": natives}, case, {"printable": True, "A": True, "B": True, "C": False})
         shadow = any(k.startswith("param_shadows") for k in p.feat)
         acc.dist["semantically_illegal_nesting_accepted_by_builder"] += 1 if illegal_nesting(c) else 0
-        pass_oracles(acc, c, gs, case, rng, names, shadowing=shadow)
+        if not p.feat.get("map_slice_literal_zero_step"):
+            pass_oracles(acc, c, gs, case, rng, names, shadowing=shadow)
         if len(acc.samples) < 4 and len(text) > 150:
             acc.samples.append(case)
     # mutants: rejections (and the occasional accepted variant) for the correspondence
@@ -1381,7 +1403,10 @@ def process_program(acc, seed, idx, thorough):
             acc.dist["mutant_accepted"] += 1
             acc.nontrivial.add(mt)
             ask("parse_program", {"text": mt, "natives": natives}, mcase, {"ok": dumpc(mc)})
-            ans = trip_oracles(acc, mc, gs, mcase)
+            if p.feat.get("map_slice_literal_zero_step"):
+                ans = impl_round_trip(mc, gs)[0]      # known violation: correspondence only
+            else:
+                ans = trip_oracles(acc, mc, gs, mcase)
             ask("round_trip", {"text": mt, "natives": natives}, mcase, ans)
 
 
